@@ -399,6 +399,22 @@ static int32_t fsr_statistics(struct jls_core_s * self, uint16_t signal_id,
     return 0;
 }
 
+// Convert the samples of the data chunk in self->buf to f64_sample_buf.
+static int32_t fsr_data_to_f64(struct jls_core_s * self, struct jls_signal_def_s * signal_def, struct jls_fsr_data_s * s) {
+    uint64_t count = s->header.entry_count;
+    uint8_t entry_size_bits = jls_datatype_parse_size(signal_def->data_type);
+    if ((count > signal_def->samples_per_data)
+            || ((sizeof(s->header) + (count * entry_size_bits + 7) / 8) > self->buf->alloc_size)) {
+        JLS_LOGE("invalid data entry count: %" PRIu64, count);
+        return JLS_ERROR_PARAMETER_INVALID;
+    }
+    count = (count + 7) & ~((uint64_t) 7);  // whole bytes for sub-byte types
+    if (count > signal_def->samples_per_data) {
+        count = signal_def->samples_per_data;
+    }
+    return jls_dt_buffer_to_f64(&s->data[0], signal_def->data_type, self->f64_sample_buf->start, (size_t) count);
+}
+
 int32_t jls_core_fsr_statistics(struct jls_core_s * self, uint16_t signal_id,
                               int64_t start_sample_id, int64_t increment,
                               double * data, int64_t data_length) {
@@ -463,7 +479,7 @@ int32_t jls_core_fsr_statistics(struct jls_core_s * self, uint16_t signal_id,
         JLS_LOGE("invalid data entry size: %d", (int) s->header.entry_size_bits);
         return JLS_ERROR_PARAMETER_INVALID;
     }
-    jls_dt_buffer_to_f64(&s->data[0], signal_def->data_type, self->f64_sample_buf->start, signal_def->samples_per_data);
+    ROE(fsr_data_to_f64(self, signal_def, s));
     double * src = &self->f64_sample_buf->start[0];
     double * src_end = &self->f64_sample_buf->start[s->header.entry_count];
     if (start_sample_id > chunk_sample_id) {
@@ -485,7 +501,7 @@ int32_t jls_core_fsr_statistics(struct jls_core_s * self, uint16_t signal_id,
             ROE(jls_core_rd_fsr_data0(self, signal_id, start_sample_id));
             s = (struct jls_fsr_data_s *) self->buf->start;
             chunk_sample_id = s->header.timestamp;
-            jls_dt_buffer_to_f64(&s->data[0], signal_def->data_type, self->f64_sample_buf->start, signal_def->samples_per_data);
+            ROE(fsr_data_to_f64(self, signal_def, s));
             src = &self->f64_sample_buf->start[0];
             src_end = &self->f64_sample_buf->start[s->header.entry_count];
         }
